@@ -230,28 +230,7 @@ def check(run) -> None:
 
 
 def _tlc_with_defs(run, module, cfg, name, defs: Dict[str, str], workers=4, timeout=600):
-    """run a spec with extra constant definitions appended to a copy of the module (cfg `<-`)"""
-    from .. import tlc as T
-    src = os.path.join(T.SPECS, f"{module}.tla")
-    text = open(src).read()
-    extra = "\n".join(f"{k} == {v}" for k, v in defs.items())
-    marker = "\nInit =="
-    i = text.index(marker)
-    patched = text[:i] + "\n" + extra + text[i:]
-    tmpd = os.path.join(run.workdir, "defs_" + name)
-    os.makedirs(tmpd, exist_ok=True)
-    saved = T.SPECS
-    # stage a spec dir containing the patched module
-    for f in os.listdir(saved):
-        if f.endswith(".tla"):
-            shutil.copy(os.path.join(saved, f), os.path.join(tmpd, f))
-    with open(os.path.join(tmpd, f"{module}.tla"), "w") as fh:
-        fh.write(patched)
-    T.SPECS = tmpd
-    try:
-        return run.tlc(module, cfg, name=name, workers=workers, timeout_s=timeout)
-    finally:
-        T.SPECS = saved
+    return run.tlc(module, cfg, name=name, workers=workers, timeout_s=timeout, defs=defs)
 
 
 def replay(rep) -> int:
